@@ -246,7 +246,7 @@ def run(ctx):
     h = ctx.build_harness('h_gochan')
     T['built'] = round(time.time() - t0, 1)
     # (mode, executions, extra args)
-    modes = [('dir', 1600, ['--masks', 'ends']), ('rand', 300, []), ('gate', 5, [])] if quick else \
+    modes = [('dir', 1000, ['--masks', 'ends']), ('rand', 200, []), ('gate', 5, [])] if quick else \
             [('dir', 0, ['--masks', 'cap0all']), ('rand', 2000, []), ('gate', 25, [])]
     rows = []
     rcs = {}
